@@ -379,6 +379,8 @@ def print_dev(res):
     if res.compile_error:
         print("COMPILE ERROR:\n" + res.compile_error)
         return
+    if getattr(res, "degraded", None):
+        print("!! DEGRADED functions (contract only, not verified): %s" % {k: v[:160] for k, v in res.degraded.items()})
     print("unit %s: verified=%d errors=%d verus=%dms smt=%dms cached=%s" % (res.unit, res.verified, res.errors, res.verus_ms, res.smt_ms, res.cached))
     for d in res.diags:
         print("-- [%s] %s tags=%s fn=%s src=%s" % (d["kind"], d["message"], d.get("tags"), d.get("fn"), d.get("src")))
